@@ -15,7 +15,9 @@ for log in args:
         continue
     sid, cid = m.groups()
     text = open(log, errors='replace').read()
-    hits = re.findall(r'^VIOLATION .*\n\s+cell=(\S+) obligation=(\S+) found_by=(\S+)', text, re.M)
+    hits = re.findall(r'^VIOLATION .*\n\s+cell=(\S+) obligation=(.+?) found_by=(\S+)', text, re.M)
+    hits += [(call, cond.split(':')[-1], 'crosshair') for cond, call in
+             re.findall(r'^VIOLATION .*\n\s+condition=(\S+) counterexample: (.*)$', text, re.M)]
     summary = re.findall(r'^%s tier=.*$' % cid, text, re.M)
     mf = f'{V}/seeded/{sid}/meta.json'
     meta = json.load(open(mf))
